@@ -11,6 +11,8 @@ hand, re-read from /repo on every run into lean/YashModel/Generated/InputConsts.
                         `pub const EXIT_STATUS_{SUCCESS,EOF,READ_ERROR}`    yash-builtin/src/read.rs
     SYNTAX_ERROR / NOT_FOUND
                         `ExitStatus::ERROR`, `ExitStatus::NOT_FOUND`        yash-env/src/semantics.rs
+    UNDO_REVERSED       the order in which `RedirGuard::undo_redirs` walks  yash-semantics/src/redir.rs
+                        `saved_fds`: last saved first (`.drain(..).rev()`)
 
 `YashModel.Input.model_constants_are_the_codes` states that the constants of the model are these
 values, so an edit of one of them in the Rust sources breaks that theorem on the next run.  Only
@@ -22,6 +24,13 @@ Accepted spellings (what a harmless refactoring produces): byte literals `b'\n'`
 integer literals in any radix with `_` separators and a type suffix (`10`, `10u8`, `0x0A_u8`), the
 comparison written either way round or as `matches!(byte, b'\n')`, a type annotation on the `let`,
 `[0; 4]` / `[0u8; 4]` / `[0_u8; 0x4]`, `ExitStatus(n)` / `Self(n)`.  Anything else: a loud failure.
+
+`UNDO_REVERSED` is the one structural fact read (the model's `undoIn` is `saved.reverse.foldl …`, and
+`redirs_undone_exactly` needs exactly that order): the single loop over `saved_fds` in `undo_redirs` is
+classified as last-saved-first (`for … in self.saved_fds.drain(..).rev()`, the same over
+`std::mem::take(&mut self.saved_fds).into_iter().rev()`, or `while let Some(…) = self.saved_fds.pop()`)
+or first-saved-first (the same `for` forms without `.rev()`); any other way of walking the vector is
+refused.
 """
 import re
 
@@ -30,6 +39,7 @@ READ_SYNTAX = "yash-builtin/src/read/syntax.rs"
 READ_INPUT = "yash-builtin/src/read/input.rs"
 READ_MAIN = "yash-builtin/src/read.rs"
 SEMANTICS = "yash-env/src/semantics.rs"
+REDIR = "yash-semantics/src/redir.rs"
 
 BYTE_ESC = {"n": 10, "t": 9, "r": 13, "0": 0, "\\": 92, "'": 39, '"': 34}
 INT = r"(?:0[xX][0-9a-fA-F_]+|0[oO][0-7_]+|0[bB][01_]+|[0-9][0-9_]*?)(?:_?[iu](?:8|16|32|64|128|size))?"
@@ -143,6 +153,29 @@ def status_const(h, file, name):
     return value(h, f"const {name} in {file}", ms[0])
 
 
+def undo_reversed(h):
+    """True iff `RedirGuard::undo_redirs` restores the saved descriptors last-saved-first"""
+    src = strip_comments(h.read(REDIR))
+    body = fn_body(h, src, "undo_redirs", REDIR)
+    where = f"the loop over saved_fds in undo_redirs of {REDIR}"
+    if body.count("saved_fds") != 1:
+        h.fail(f"anchor not found (or not unique): {where} (saved_fds is mentioned {body.count('saved_fds')} times)")
+    pops = re.findall(r"\bwhile\s+let\s+Some\s*\(.*?\)\s*=\s*self\s*\.\s*saved_fds\s*\.\s*pop\s*\(\s*\)\s*\{", body, re.S)
+    fors = re.findall(r"\bfor\b.*?\bin\b([^{]*?saved_fds[^{]*?)\{", body, re.S)
+    if len(pops) + len(fors) != 1:
+        h.fail(f"cannot classify {where}: expected one `for … in …saved_fds… {{` or one `while let Some(…) = self.saved_fds.pop() {{`")
+    if pops:
+        return True
+    e = re.sub(r"\s+", "", fors[0])
+    forward = ["self.saved_fds.drain(..)", "std::mem::take(&mutself.saved_fds).into_iter()",
+               "mem::take(&mutself.saved_fds).into_iter()", "take(&mutself.saved_fds).into_iter()"]
+    if e in forward:
+        return False
+    if e in [f + ".rev()" for f in forward]:
+        return True
+    h.fail(f"cannot classify {where}: iteration expression `{fors[0].strip()}`")
+
+
 def input_consts(h):
     default, nul = read_delims(h)
     items = [
@@ -159,6 +192,9 @@ def input_consts(h):
     body = ""
     for name, val, doc in items:
         body += f"/-- {doc} -/\ndef {name} : Nat := {val}\n\n"
+    rev = undo_reversed(h)
+    body += ("/-- `RedirGuard::undo_redirs` walks `saved_fds` last saved first (`.drain(..).rev()`), "
+             f"{REDIR} -/\ndef UNDO_REVERSED : Bool := {'true' if rev else 'false'}\n\n")
     h.write("InputConsts", body.rstrip("\n") + "\n")
 
 
